@@ -722,13 +722,15 @@ impl Gen {
             }
             6 => {
                 self.cs_gen.clear();
-                Op::CsFrom(self.pairs(rng, ex, 8))
+                // occasionally a long batch (the standard sorts change algorithm above 20 elements; growth of the dense vector)
+                let max = if rng.chance(1, 6) { 70 } else { 8 };
+                Op::CsFrom(self.pairs(rng, ex, max))
             }
             7 => match self.handle(rng, ex, true) {
                 Some(h) => Op::CsAdd(h, self.amount(rng)),
                 None => Op::Create,
             },
-            8 => Op::CsExtend(self.pairs(rng, ex, 6)),
+            8 => { let max = if rng.chance(1, 8) { 50 } else { 6 }; Op::CsExtend(self.pairs(rng, ex, max)) }
             9 => {
                 self.cs_gen.clear();
                 Op::CsClear
